@@ -459,13 +459,13 @@ def evWrite : Ev → Init
 /-- `x` lies inside the cleared bytes `[a, b)` or is bit-disjoint from them -/
 def ClearRel (x : Init) (a b : Nat) : Prop := x.within a b = true ∨ (x.hi ≤ 8 * a ∨ 8 * b ≤ x.lo)
 
-/-- the conditions on an event sequence, `prev` being the initialisers added before it:
-every earlier/later pair of initialisers is `Lam`, every cleared range is laminar with what was
-added before. -/
+/-- the conditions on an event sequence, `prev` being the initialisers added before it and not
+cleared since: every earlier/later pair of initialisers is `Lam`, every cleared range is laminar
+with what was added before. -/
 def EvsOK (prev : List Init) : List Ev → Prop
   | [] => True
   | .add i :: es => (∀ o ∈ prev, Lam o i) ∧ NonEmpty i ∧ ByteVal i ∧ EvsOK (prev ++ [i]) es
-  | .clear a b :: es => (∀ o ∈ prev, ClearRel o a b) ∧ EvsOK prev es
+  | .clear a b :: es => (∀ o ∈ prev, ClearRel o a b) ∧ EvsOK (prev.filter (fun o => !o.within a b)) es
 
 /-- the initialisers of an event sequence -/
 def adds : List Ev → List Init
@@ -522,12 +522,18 @@ theorem foldl_applyEv {evs : List Ev} : ∀ {prev l : List Init}, EvsOK prev evs
     | clear a b =>
       obtain ⟨hcl, hrest⟩ := hok
       have hf' : Forest (initclear l a b) := forest_initclear hf a b
-      have hsub' : ∀ o ∈ initclear l a b, o ∈ prev := fun o ho => hsub o (mem_initclear ho)
-      obtain ⟨r1, r2, r3⟩ := ih hrest hf' hsub' hprev
+      have hsub' : ∀ o ∈ initclear l a b, o ∈ prev.filter (fun o => !o.within a b) := by
+        intro o ho
+        unfold initclear at ho
+        rw [List.mem_filter] at ho ⊢
+        exact ⟨hsub o ho.1, ho.2⟩
+      have hprev' : ∀ o ∈ prev.filter (fun o => !o.within a b), NonEmpty o ∧ ByteVal o :=
+        fun o ho => hprev o (List.mem_filter.1 ho).1
+      obtain ⟨r1, r2, r3⟩ := ih hrest hf' hsub' hprev'
       refine ⟨r1, ?_, ?_⟩
       · intro o ho
         rcases r2 o ho with h | h
-        · exact .inl h
+        · exact .inl (List.mem_filter.1 h).1
         · exact .inr (by simp [adds, h])
       · intro j
         rw [List.foldl_cons, List.map_cons, cellFold_cons]
